@@ -249,6 +249,24 @@ def main():
         print("gen: FATAL", e)
         return 0
     status["operators_missing"] = check_operators()
+    # file-scope vector constants
+    glob_map = {}
+    try:
+        import tr_globals
+        gl = tr_globals.read_globals()
+        lines = ["-- GENERATED by tools/gen.py (tr_globals) from /repo's current sources. Do not edit.",
+                 "import GoldilocksVerif.Isa.Avx2", "import GoldilocksVerif.Isa.Avx512",
+                 "namespace Gen.VecConsts", "open GoldilocksVerif", ""]
+        for cname, lname, lty, term in gl:
+            lines.append("/-- file-scope `%s` -/" % cname)
+            lines.append("def %s : %s := %s" % (lname, lty, term))
+            lines.append("")
+            glob_map[cname] = "Gen.VecConsts." + lname
+        lines.append("end Gen.VecConsts")
+        write_if_changed(os.path.join(GEN_DIR, "VecConsts.lean"), "\n".join(lines) + "\n")
+        status["globals"] = [g[0] for g in gl]
+    except Exception as e:
+        status["globals_error"] = str(e)
     lean_arms, cpp_arms = [], []
     dispatch_imports = []
     import copy
@@ -260,12 +278,10 @@ def main():
         tr.unroll_max = m.get("unroll_max", tr_cxx.UNROLL_MAX)
         tr.prior_fns = reg_fns
         tr.prior_consts = reg_consts
-        if "globals" in m:
-            try:
-                tr.globals = m["globals"](ast)
-            except Exception as e:
-                st["ok"] = False
-                st["errors"].append("globals: %s" % e)
+        tr.globals = glob_map
+        if status.get("globals_error") and m.get("needs_globals"):
+            st["ok"] = False
+            st["errors"].append("file-scope constants: " + status["globals_error"])
         # earlier modules' functions are reused, not re-emitted
         for dep in m.get("uses", []):
             pass
